@@ -1,5 +1,7 @@
 package main
 
+import "strings"
+
 var backendPkgsG16 = []string{"./backend/groth16/..."}
 var backendPkgsPlonk = []string{"./backend/plonk/..."}
 
@@ -72,8 +74,8 @@ func init() {
 		r.RequireMin("V-GUARD-LEN", 14*2)
 	})
 	register("C18", []string{"./backend/groth16/..."}, func(p *Prog, r *Report) {
-		r.Engines = []string{"verifier(V-PASS,V-COVER,V-ERR)"}
-		r.Explanation = "Static analysis of Phase1.Verify and Phase2.Verify of the 7 mpcsetup packages. Decided: (V-PASS) every accepting exit passes each update-proof verification (tau, alpha, beta; every sigma_i and delta), the size guards and SameRatioMany, with reviewed argument provenance: each update proof is tied to the previous contribution (the challenge argument derives from p.hash(), never from the untrusted contribution) and to the reviewed parameter pairs (G1.Tau[1], AlphaTau[0], BetaTau[0], G2.Beta; G1/G2.Delta, Z, PKK, SigmaCKK[i], Sigma[i]), SameRatioMany receives the four complete power vectors; (V-COVER) every parameter vector and update proof of the untrusted contribution reaches a check; (V-ERR) no discarded error. NOT decided: update-proof / same-ratio cryptography (gnark-crypto), Lagrange conversion values, equality with single-party setup."
+		r.Engines = []string{"verifier(V-PASS,V-COVER,V-ERR)", "coeffid(COEFF-SWITCH)", "sibling"}
+		r.Explanation = "Static analysis of Phase1.Verify and Phase2.Verify of the 7 mpcsetup packages. Decided: (V-PASS) every accepting exit passes each update-proof verification (tau, alpha, beta; every sigma_i and delta), the size guards and SameRatioMany, with reviewed argument provenance: each update proof is tied to the previous contribution (the challenge argument derives from p.hash(), never from the untrusted contribution) and to the reviewed parameter pairs (G1.Tau[1], AlphaTau[0], BetaTau[0], G2.Beta; G1/G2.Delta, Z, PKK, SigmaCKK[i], Sigma[i]), SameRatioMany receives the four complete power vectors; (V-COVER) every parameter vector and update proof of the untrusted contribution reaches a check; (V-ERR) no discarded error; (COEFF-SWITCH) in Phase2.Initialize the special-coefficient fast paths of the G1 / G2 accumulators equal the table path and leave the shared Lagrange tables untouched (symbolic interpretation); sibling agreement of the 7 generated packages. NOT decided: update-proof / same-ratio cryptography (gnark-crypto), Lagrange conversion values, equality with single-party setup."
 		r.RuleText = "one obligation per (rule, sibling package, construct); nontrivial = discharged by a witness"
 		r.Assumptions = []string{cgAssumption, "trust partition: `next` is attacker-controlled, the receiver (previous, already verified contribution) is trusted"}
 		ve, err := newVerifierEngine(p)
@@ -83,6 +85,7 @@ func init() {
 		}
 		RunSibling(p, r, "C18")
 		ve.RunTargets("C18", r, "pass", "cover", "err")
+		RunCoeffSwitches(p, r, func(pkg string) bool { return strings.HasSuffix(pkg, "/mpcsetup") })
 		r.RequireMin("V-PASS", 7*10)
 		r.RequireMin("V-COVER", 7*10)
 	})
